@@ -227,9 +227,16 @@ def run_directed(rnd, plan):
     delay = rnd.choice(["", "child0_pre_setpgid=40", "child1_pre_setpgid=40", "parent_after_fork0=40", "parent_after_fork1=40"])
     s = None
     try:
-        s = ptydrv.Session(defs, extra_env={"CICADA_VERIF_DELAY": delay} if delay else None)
+        # the shell reaps children in two ways: by polling at the prompt (default) or in a SIGCHLD handler
+        # (CICADA_ENABLE_SIG_HANDLER=1); C07 holds in both
+        xenv = {"CICADA_VERIF_DELAY": delay} if delay else {}
+        handler = os.environ.get("C07_HANDLER", "") == "1" or rnd.random() < 0.5
+        if handler:
+            xenv["CICADA_ENABLE_SIG_HANDLER"] = "1"
+        s = ptydrv.Session(defs, extra_env=xenv or None)
         s.records[0]["delay"] = delay
         s.records[0]["directed"] = True
+        s.records[0]["sig_handler"] = handler
         for ev, kw in script:
             if ev in ("fg", "bg"):
                 s.act("jobs")
